@@ -93,6 +93,24 @@ def run(rep, tier, rng):
                 rel.append(("split-derive", d, s1, {"traits": traits, "parts": pa}))
                 s2 = add({"entry": "attr", "attr": pa[0], "item": "".join(f"#[derive_ex({x})] " for x in pa[1:]) + text})
                 rel.append(("split-attr", a, s2, {"traits": traits, "parts": pa}))
+        # split lists whose parts carry DIFFERENT shared arguments: every part must expand as it does alone
+        if len(elems) >= 2 and "dump" not in shared:
+            cut = rng.randrange(1, len(elems))
+            parts = [elems[:cut], elems[cut:]]
+            tr_parts = [[trait_of(e) for e in p] for p in parts]
+            if not activates_helper(item, tr_parts[0], tr_parts[1]) and not activates_helper(item, tr_parts[1], tr_parts[0]):
+                sh = [[G.rand_bound(rng)] if rng.random() < 0.6 else [] for _ in parts]
+                if rng.random() < 0.2:
+                    sh[rng.randrange(2)].append("dump")
+                pa = [", ".join(p + x) for p, x in zip(parts, sh)]
+                use_attr = rng.random() < 0.5
+                if use_attr:
+                    whole = add({"entry": "attr", "attr": pa[0], "item": f"#[derive_ex({pa[1]})] " + text})
+                    alone = [add(req_attr(0, pa[0], text)), add(req_attr(0, pa[1], text))]
+                else:
+                    whole = add(req_derive(0, pa, text))
+                    alone = [add(req_derive(0, [pa[0]], text)), add(req_derive(0, [pa[1]], text))]
+                rel.append(("split-independent", whole, alone, {"traits": traits, "parts": pa}))
         # supersets and permutations: per-trait slots must not change
         pool = G.STRUCT_TRAITS if item["kind"] == "struct" else G.ENUM_TRAITS
         extra = [t for t in rng.sample(pool, min(3, len(pool))) if t not in traits][:rng.randint(1, 3)]
@@ -114,6 +132,22 @@ def run(rep, tier, rng):
     for kind, ia, ib, info in rel:
         rep.evaluations += 1
         rep.count("rel_" + kind)
+        if kind == "split-independent":
+            ga = generated(obs[ia], reqs[ia]["entry"])
+            gparts = [generated(obs[j], reqs[j]["entry"]) for j in ib]
+            bad = None
+            if ga is None or any(g is None for g in gparts):
+                bad = ("expansion-failed", "")
+            elif ga != gparts[0] + gparts[1]:
+                gb = gparts[0] + gparts[1]
+                k = next((i for i, (x, y) in enumerate(zip(ga, gb)) if x != y), min(len(ga), len(gb)))
+                bad = ("part-expands-differently-next-to-another-attribute",
+                       f"item #{k}:\n together: {ga[k] if k < len(ga) else None}\n alone:    {gb[k] if k < len(gb) else None}"[:900])
+            rep.nontrivial.add((kind, tuple(sorted(set(info["traits"])))))
+            if bad:
+                rep.violation(f"C15|{kind}|{bad[0]}", f"{kind}: {bad[0]}\n whole: {json.dumps(reqs[ia])[:400]}\n{bad[1]}",
+                              {"kind": kind, "a": reqs[ia], "b": [reqs[j] for j in ib], "info": info, "detail": bad[1]})
+            continue
         oa, ob = obs[ia], obs[ib]
         ea, eb = reqs[ia]["entry"], reqs[ib]["entry"]
         bad = None
@@ -149,7 +183,7 @@ def run(rep, tier, rng):
         if bad:
             rep.violation(f"C15|{kind}|{bad[0]}", f"{kind}: {bad[0]}\n A: {json.dumps(reqs[ia])[:400]}\n B: {json.dumps(reqs[ib])[:400]}\n{bad[1]}",
                           {"kind": kind, "a": reqs[ia], "b": reqs[ib], "info": info, "detail": bad[1]})
-    kind, ia, ib, info = rel[1]
+    kind, ia, ib, info = next(r for r in rel if r[0] == "split-derive")
     rep.sample({"relation": kind, "a": reqs[ia], "b": reqs[ib]})
     kind, ia, ib, info = next(r for r in rel if r[0] == "superset")
     rep.sample({"relation": kind, "a": reqs[ia], "b": reqs[ib]})
@@ -167,8 +201,16 @@ def run(rep, tier, rng):
 
 def replay(rep, path):
     j = json.load(open(path))["replay"]
-    oa, ob = C.expand([j["a"], j["b"]])
     kind, info = j["kind"], j["info"]
+    if kind == "split-independent":
+        o = C.expand([j["a"]] + j["b"])
+        g = [generated(x, r["entry"]) for x, r in zip(o, [j["a"]] + j["b"])]
+        if None in g or g[0] != g[1] + g[2]:
+            print(f"VIOLATION property=C15 replay={path}")
+            return 1
+        print("replay: no violation")
+        return 0
+    oa, ob = C.expand([j["a"], j["b"]])
     if kind in ("entry", "split-derive", "split-attr"):
         bad = generated(oa, j["a"]["entry"]) != generated(ob, j["b"]["entry"])
     else:
